@@ -96,7 +96,11 @@ func c12Gen(t *verifrt.Tape) *c12Scenario {
 	nf := 1 + t.Draw(4)
 	var family []string
 	for i := 0; i < nf; i++ {
-		family = append(family, pick(t, c12Trans))
+		if i > 0 && t.Draw(3) == 0 {
+			family = append(family, family[i-1]) // the same step twice (double decoding)
+		} else {
+			family = append(family, pick(t, c12Trans))
+		}
 	}
 	allowDyn := t.Draw(3) == 0
 	n := 2 + t.Draw(5)
@@ -111,7 +115,11 @@ func c12Gen(t *verifrt.Tape) *c12Scenario {
 		sc.Rules = append(sc.Rules, r)
 	}
 	names := []string{"a", "a", "a", "b", "x", "A", "ab"}
-	vals := []string{"Ab", "aB", "AB", "ab", "Q%41", " x ", "a+B", "Ab", "<!--c-->Z", "&amp;", "4142", "4a4B", "QUI="}
+	vals := []string{"Ab", "aB", "AB", "ab", "Q%41", " x ", "a+B", "Ab", "<!--c-->Z", "&amp;", "4142", "4a4B", "QUI=",
+		// chains x -> T(x) -> T(T(x)) present side by side
+		"%252541b", "%2541b", "%41b", "Ab", "ab", "  ab ", " ab", "343134", "3431", "41",
+		// equal-length pairs that collide under weak fingerprints (byte sum, FNV-1a 32)
+		"ba", "XmBSkAwk", "dnMDOHDF", "bc", "ad"}
 	q := func() string {
 		var ps []string
 		for i, n := 0, 1+t.Draw(6); i < n; i++ {
